@@ -273,3 +273,13 @@ package ipa
 //@ fact mtab(i int, kk int, jj int): 0 <= i && i < 256 && 0 <= kk && kk < len(ic.PrecompMSM.precompPoints[i].windows) && 0 <= jj && jj < (ic.PrecompMSM.precompPoints[i].windowSize == 8 ? 128 : 32768) ==> validN(ic.PrecompMSM.precompPoints[i].windows[kk][jj]) && gelN(ic.PrecompMSM.precompPoints[i].windows[kk][jj]) == (ic.PrecompMSM.precompPoints[i].windowSize == 8 ? g_smul((jj + 1) * pow2(8 * kk), ppbase(obj(ic), off(&ic.PrecompMSM) + 5*i)) : g_smul((jj + 1) * pow2(16 * kk), ppbase(obj(ic), off(&ic.PrecompMSM) + 5*i)))
 //@ fact base(i int): 0 <= i && i < 256 ==> len(ic.SRS) == 256 && ppbase(obj(ic), off(&ic.PrecompMSM) + 5*i) == gelP(ic.SRS[i].inner)
 //@ ensures validP(result.inner) && gelP(result.inner) == msum(obj(ic), off(&ic.PrecompMSM), polynomial, len(polynomial))
+
+// IPAProof.Equal: true exactly when both proofs have eight L and eight R points, the points are pairwise Equal (the
+// cross-product test of banderwagon.Element.Equal, C07) and the final scalars are the same field element.
+//@ func IPAProof.Equal
+//@ props C10
+//@ prelude field
+//@ macro EQP(a, b) = (!(a.inner.X == fp_zero && a.inner.Y == fp_zero) && !(b.inner.X == fp_zero && b.inner.Y == fp_zero) && a.inner.X * b.inner.Y == a.inner.Y * b.inner.X)
+//@ ensures result == (len(ip.L) == 8 && len(ip.R) == 8 && len(other.L) == 8 && len(other.R) == 8 && (forall k int :: 0 <= k && k < 8 ==> EQP(ip.L[k], other.L[k]) && EQP(ip.R[k], other.R[k])) && ip.A_scalar == other.A_scalar)
+//@ loop 0 invariant 0 <= i && i <= 8 && len(ip.L) == 8 && len(ip.R) == 8 && len(other.L) == 8 && len(other.R) == 8
+//@ loop 0 invariant forall k int :: 0 <= k && k < i ==> EQP(ip.L[k], other.L[k]) && EQP(ip.R[k], other.R[k])
